@@ -25,7 +25,7 @@ from .. import core, cxx, impl, qgen, semrun
 PID = "C02"
 PROP_FILE = "Properties/C02.v"
 BACKENDS = ["atlas", "cms_aod", "cms_miniaod"]
-ALLOW = ["range", "first", "aggregate", "int_true_division", "selectmany_seq_column", "selectmany_inside", "shared_shapes", "index"]
+ALLOW = ["range", "first", "aggregate", "int_true_division", "selectmany_seq_column", "selectmany_inside", "shared_shapes", "index", "flatseq"]
 TRUSTED = [
     "Coq 8.16.1 kernel (coqc); vm_compute only in the witness Examples",
     "Cpp/IR.v + Cpp/Exec.v as the meaning of the emitted C++ subset (shared with C01/C03-C05); the theorems are about Exec, g++ validates the checkers' verdicts on samples",
@@ -117,9 +117,82 @@ MIX_MD = {"metadata_type": "add_cpp_function", "name": "fv_mix", "include_files"
           "code": ["auto result = a*2.0 + b;"], "return_type": "double"}
 
 
+# two inject_code blocks whose code lines repeat (closing braces, the same guard in two places, #if/#endif pairs): every line is
+# C++ text that must reach the files as often as it was sent, or the package no longer compiles
+INJECT_BLOCKS = [
+    {"metadata_type": "inject_code", "name": "fv_blk_a", "body_includes": ["vector"], "header_includes": ["vector"],
+     "private_members": ["struct fv_a_t {", "int n;", "};", "fv_a_t m_fv_a;", "#ifdef FV_EXTRA", "int m_fv_extra_a;", "#endif"],
+     "instance_initialization": ["m_fv_a()"],
+     "ctor_lines": ["if (name.size() > 3) {", "m_fv_a.n = 1;", "}", "else {", "m_fv_a.n = 2;", "}"],
+     "initialize_lines": ["for (int fv_i = 0; fv_i < 2; fv_i++) {", "m_fv_a.n += fv_i;", "}"]},
+    {"metadata_type": "inject_code", "name": "fv_blk_b", "body_includes": ["vector", "string"], "header_includes": ["string"],
+     "private_members": ["struct fv_b_t {", "int n;", "};", "fv_b_t m_fv_b;", "#ifdef FV_EXTRA", "int m_fv_extra_b;", "#endif"],
+     "instance_initialization": ["m_fv_b()"],
+     "ctor_lines": ["if (name.size() > 3) {", "m_fv_b.n = 1;", "}"],
+     "initialize_lines": ["for (int fv_i = 0; fv_i < 2; fv_i++) {", "m_fv_b.n += fv_i;", "}"]},
+]
+
+
 def metadata(uni: qgen.Universe):
-    """Universe metadata + one two-argument injected C++ function (a CPPCodeValue like the built-in DeltaR)."""
-    return uni.metadata() + [MIX_MD]
+    """Universe metadata + one two-argument injected C++ function (a CPPCodeValue like the built-in DeltaR) + two code blocks."""
+    return uni.metadata() + [MIX_MD] + INJECT_BLOCKS
+
+
+def cpp_balance(text: str) -> Optional[str]:
+    """None if (), [] and {} nest properly in the C++ text outside comments, string and character literals, and every
+    #if/#ifdef/#ifndef has its #endif; otherwise what is wrong."""
+    stack: List[Tuple[str, int]] = []
+    pairs = {")": "(", "]": "[", "}": "{"}
+    i, n, line = 0, len(text), 1
+    cond = 0
+    while i < n:
+        ch = text[i]
+        if ch == "\n":
+            line += 1
+            i += 1
+        elif text.startswith("//", i):
+            j = text.find("\n", i)
+            i = n if j < 0 else j
+        elif text.startswith("/*", i):
+            j = text.find("*/", i + 2)
+            if j < 0:
+                return f"line {line}: comment never closed"
+            line += text.count("\n", i, j)
+            i = j + 2
+        elif ch == '"' or (ch == "'" and not (i > 0 and text[i - 1].isalnum())):
+            j = i + 1
+            while j < n and text[j] != ch:
+                if text[j] == "\n":
+                    return f"line {line}: literal not closed on its line"
+                j += 2 if text[j] == "\\" else 1
+            if j >= n:
+                return f"line {line}: literal never closed"
+            i = j + 1
+        elif ch == "#" and text[:i].rsplit("\n", 1)[-1].strip() == "":
+            j = text.find("\n", i)
+            d = text[i + 1 : n if j < 0 else j].strip()
+            if re.match(r"if(def|ndef)?\b", d):
+                cond += 1
+            elif d.startswith("endif"):
+                cond -= 1
+                if cond < 0:
+                    return f"line {line}: #endif without #if"
+            i = n if j < 0 else j
+        elif ch in "([{":
+            stack.append((ch, line))
+            i += 1
+        elif ch in ")]}":
+            if not stack or stack[-1][0] != pairs[ch]:
+                return f"line {line}: {ch!r} closes nothing" if not stack else f"line {line}: {ch!r} closes {stack[-1][0]!r} opened on line {stack[-1][1]}"
+            stack.pop()
+            i += 1
+        else:
+            i += 1
+    if stack:
+        return f"{stack[-1][0]!r} opened on line {stack[-1][1]} is never closed"
+    if cond:
+        return f"{cond} #if without #endif"
+    return None
 
 
 def _inj_arg(rng: random.Random, uni: qgen.Universe, outer: Optional[str]) -> str:
@@ -272,6 +345,12 @@ def package_errors(backend: str, pkg: Dict[str, Any]) -> List[Tuple[str, str]]:
     for seq in ("query_code", "book_code", "class_decl"):
         if seq not in seen:
             out.append(("slot-file-tie", f"no rendered template file has a loop over {seq}"))
+    # every rendered C++ file is at least bracket- and #if-balanced (whatever was injected into it)
+    for fname, f in files.items():
+        if fname.rsplit(".", 1)[-1] in ("cxx", "cc", "cpp", "h", "hpp"):
+            bad = cpp_balance(f["text"])
+            if bad:
+                out.append(("unbalanced", f"rendered {fname} is not C++: {bad}"))
     return out
 
 
@@ -658,7 +737,7 @@ def check(tier: str, seed: int, t0: float, build: core.BuildStatus) -> int:
             oc.violations.append(core.Violation(
                 key=key, what=f"[{r.backend}] {what} - query {r.src[:160]}",
                 replay={"kind": "query", "backend": r.backend, "query": r.src, "features": sorted(r.feat),
-                        "metadata": "qgen.Universe(backend).metadata() + [c02.MIX_MD]", "finding": what, "checker_errors": r.checker,
+                        "metadata": "c02.metadata(qgen.Universe(backend))", "finding": what, "checker_errors": r.checker,
                         "status": r.status, "note": r.note, "gxx_messages": gxx.get(results.index(r)) if gxx else None,
                         "emitted_query_code": _norm(r.raw["query_code"]) if r.raw else None,
                         "emitted_class_decl": _norm(r.raw["class_decl"]) if r.raw else None,
